@@ -586,7 +586,7 @@ fn run(ctx: &mut Ctx) {
             case(ctx, "enum", &format!("{HDR}{body}"));
         });
     }
-    let n_random = if quick { 6000 } else { 300_000 };
+    let n_random = if quick { 6000 } else { 250_000 };
     let mut rng = ctx.rng(25);
     for _ in 0..n_random {
         let bound = if rng.chance(1, 4) { 16 } else { 8 };
